@@ -181,6 +181,10 @@ def list_comp(I, st, node):
                                         z3.And(z3.Select(dom, wit(j)), z3.Select(items, j) == img, inv(wit(j)) == j))))
     st.assume(z3.ForAll([k], z3.Implies(z3.Select(dom, k), z3.And(0 <= inv(k), inv(k) < ln, wit(inv(k)) == k))))
     I.set_list(st, o, ln, items)
+    # the list is the image of `dom` under k -> elt: min()/max()/map() over it reason about the keyed image directly
+    if not hasattr(st, "image_views"):
+        st.image_views = {}
+    st.image_views[o.term.get_id()] = (dom, k, ev.term, et, kt)
     return o
 
 
@@ -251,6 +255,21 @@ def to_list(I, st, v, node):
 def min_max_iter(I, st, name, v, node):
     """min/max over a generator expression / map() over a keyed source: a fresh value that bounds every element and is
     attained (assumed builtin contract); ValueError on an empty source"""
+    if v.ty == "View" and v.term[0] == "map":
+        fn, src = v.term[1], v.term[2]
+        iv = getattr(st, "image_views", {}).get(src.term.get_id()) if (src.term is not None and z3.is_expr(src.term)) else None
+        if src.extra and src.extra[0] == "keyed_image":
+            iv = src.extra[1:]
+        if iv is None:
+            raise Unsupported("%s(map(...)) over %s" % (name, ty_str(src.ty)))
+        dom, k, term, ety, kt = iv
+        from . import calls
+        st.spec_depth += 1      # the mapped function must be pure
+        try:
+            r = calls.call_value(I, st, fn, [Val(ety, term)], {}, node)
+        finally:
+            st.spec_depth -= 1
+        v = Val("View", ("image",), extra=("keyed_image", dom, k, r.term, strip_opt(r.ty), kt))
     if v.extra and v.extra[0] == "keyed_image":
         _, dom, k, term, ty, kt = v.extra
         ks = k.sort()
